@@ -118,6 +118,7 @@ type FE struct {
 	entry   map[*ssa.Function]Facts
 	roots   map[*ssa.Function]bool
 	nonNil  map[*ssa.Global]bool
+	nnDepth int
 }
 
 func NewFE(c *Ctx) *FE {
@@ -209,6 +210,25 @@ func (e *FE) provablyNonNil(v ssa.Value) bool {
 		if call, ok := x.Tuple.(*ssa.Call); ok {
 			if a := e.passThroughArg(call, x.Index); a != nil {
 				return e.provablyNonNil(a)
+			}
+			// a new helper every return of which hands back a non-nil value here
+			if sc := call.Call.StaticCallee(); sc != nil && e.c.isNew(sc) && e.nnDepth < 3 {
+				e.nnDepth++
+				all, n := true, 0
+				for _, b := range sc.Blocks {
+					r, isR := b.Instrs[len(b.Instrs)-1].(*ssa.Return)
+					if !isR || x.Index >= len(r.Results) || (b != sc.Blocks[0] && len(b.Preds) == 0) {
+						continue
+					}
+					n++
+					if !e.provablyNonNil(resolveLocal(r.Results[x.Index])) {
+						all = false
+					}
+				}
+				e.nnDepth--
+				if all && n > 0 {
+					return true
+				}
 			}
 		}
 	case *ssa.UnOp:
